@@ -850,6 +850,25 @@ impl DcpsDomainParticipant {
                         &discovered_reader_data.dds_subscription_data.partition,
                         &publisher.qos.partition,
                     );
+                    if !is_partition_matched {
+                        // A matched reader that moved to a non-matching partition is not matched anymore
+                        let reader_handle = InstanceHandle::new(
+                            discovered_reader_data.dds_subscription_data.key().value,
+                        );
+                        if data_writer
+                            .matched_subscription_list
+                            .iter()
+                            .any(|x| &x.key().value == reader_handle.as_ref())
+                        {
+                            data_writer.remove_matched_subscription(&reader_handle);
+                            data_writer.transport_writer.delete_matched_reader(
+                                discovered_reader_data.reader_proxy.remote_reader_guid,
+                            );
+                            data_writer
+                                .status_condition
+                                .add_communication_state(StatusKind::PublicationMatched);
+                        }
+                    }
                     if is_partition_matched {
                         let publisher_qos = publisher.qos.clone();
 
@@ -1011,6 +1030,17 @@ impl DcpsDomainParticipant {
                                         &publisher_qos,
                                     );
                                 if incompatible_qos_policy_list.is_empty() {
+                                    // A matched reader announcing updated but still compatible QoS
+                                    // is not a new match
+                                    let is_new_match = !data_writer
+                                        .matched_subscription_list
+                                        .iter()
+                                        .any(|x| {
+                                            x.key()
+                                                == discovered_reader_data
+                                                    .dds_subscription_data
+                                                    .key()
+                                        });
                                     match data_writer.matched_subscription_list.iter_mut().find(
                                         |x| {
                                             x.key()
@@ -1029,10 +1059,14 @@ impl DcpsDomainParticipant {
                                     };
                                     data_writer.publication_matched_status.current_count =
                                         data_writer.matched_subscription_list.len() as i32;
-                                    data_writer.publication_matched_status.current_count_change +=
-                                        1;
-                                    data_writer.publication_matched_status.total_count += 1;
-                                    data_writer.publication_matched_status.total_count_change += 1;
+                                    if is_new_match {
+                                        data_writer
+                                            .publication_matched_status
+                                            .current_count_change += 1;
+                                        data_writer.publication_matched_status.total_count += 1;
+                                        data_writer.publication_matched_status.total_count_change +=
+                                            1;
+                                    }
 
                                     let unicast_locator_list = if discovered_reader_data
                                         .reader_proxy
@@ -1106,7 +1140,9 @@ impl DcpsDomainParticipant {
                                         .transport_writer
                                         .add_matched_reader(reader_proxy);
 
-                                    if data_writer
+                                    if !is_new_match {
+                                        // Nothing to report
+                                    } else if data_writer
                                         .listener_mask
                                         .is_enabled(&StatusKind::PublicationMatched)
                                     {
@@ -1145,10 +1181,34 @@ impl DcpsDomainParticipant {
                                         }
                                     }
 
-                                    data_writer
-                                        .status_condition
-                                        .add_communication_state(StatusKind::PublicationMatched);
+                                    if is_new_match {
+                                        data_writer.status_condition.add_communication_state(
+                                            StatusKind::PublicationMatched,
+                                        );
+                                    }
                                 } else {
+                                    let reader_handle = InstanceHandle::new(
+                                        discovered_reader_data.dds_subscription_data.key().value,
+                                    );
+                                    // A matched reader whose QoS became incompatible is not matched anymore
+                                    if data_writer
+                                        .matched_subscription_list
+                                        .iter()
+                                        .any(|x| &x.key().value == reader_handle.as_ref())
+                                    {
+                                        data_writer.remove_matched_subscription(&reader_handle);
+                                        data_writer.transport_writer.delete_matched_reader(
+                                            discovered_reader_data.reader_proxy.remote_reader_guid,
+                                        );
+                                        data_writer.status_condition.add_communication_state(
+                                            StatusKind::PublicationMatched,
+                                        );
+                                    }
+                                    // The incompatibility of a reader is only reported once
+                                    let is_newly_incompatible = !data_writer
+                                        .incompatible_subscriptions
+                                        .incompatible_subscription_list
+                                        .contains(&reader_handle);
                                     data_writer
                                         .incompatible_subscriptions
                                         .add_incompatible_subscription(
@@ -1161,7 +1221,9 @@ impl DcpsDomainParticipant {
                                             incompatible_qos_policy_list,
                                         );
 
-                                    if data_writer
+                                    if !is_newly_incompatible {
+                                        // Already reported
+                                    } else if data_writer
                                         .listener_mask
                                         .is_enabled(&StatusKind::OfferedIncompatibleQos)
                                     {
@@ -1207,9 +1269,11 @@ impl DcpsDomainParticipant {
                                         }
                                     }
 
-                                    data_writer.status_condition.add_communication_state(
-                                        StatusKind::OfferedIncompatibleQos,
-                                    );
+                                    if is_newly_incompatible {
+                                        data_writer.status_condition.add_communication_state(
+                                            StatusKind::OfferedIncompatibleQos,
+                                        );
+                                    }
                                 }
                             } else {
                                 writer_associated_topic
@@ -1377,6 +1441,22 @@ impl DcpsDomainParticipant {
                         &subscriber_qos.partition,
                     );
 
+                    if !is_partition_matched {
+                        // A matched writer that moved to a non-matching partition is not matched anymore
+                        let writer_handle = InstanceHandle::new(
+                            discovered_writer_data.dds_publication_data.key().value,
+                        );
+                        if data_reader
+                            .matched_publication_list
+                            .iter()
+                            .any(|x| &x.key().value == writer_handle.as_ref())
+                        {
+                            data_reader.remove_matched_publication(&writer_handle);
+                            data_reader.transport_reader.delete_matched_writer(
+                                discovered_writer_data.writer_proxy.remote_writer_guid,
+                            );
+                        }
+                    }
                     if is_partition_matched {
                         let reader_associated_topic = if let Some(matched_topic) = self
                             .domain_participant
@@ -1549,6 +1629,14 @@ impl DcpsDomainParticipant {
                                         &subscriber_qos,
                                     );
                                 if incompatible_qos_policy_list.is_empty() {
+                                    // A matched writer announcing updated but still compatible QoS
+                                    // is not a new match
+                                    let is_new_match = !data_reader
+                                        .matched_publication_list
+                                        .iter()
+                                        .any(|x| {
+                                            x.key() == discovered_writer_data.dds_publication_data.key()
+                                        });
                                     data_reader.add_matched_publication(
                                         discovered_writer_data.dds_publication_data.clone(),
                                     );
@@ -1614,7 +1702,9 @@ impl DcpsDomainParticipant {
                                         .transport_reader
                                         .add_matched_writer(&writer_proxy);
 
-                                    if data_reader
+                                    if !is_new_match {
+                                        // Nothing to report
+                                    } else if data_reader
                                         .listener_mask
                                         .is_enabled(&StatusKind::SubscriptionMatched)
                                     {
@@ -1652,10 +1742,29 @@ impl DcpsDomainParticipant {
                                         }
                                     }
 
-                                    data_reader
-                                        .status_condition
-                                        .add_communication_state(StatusKind::SubscriptionMatched);
+                                    if is_new_match {
+                                        data_reader.status_condition.add_communication_state(
+                                            StatusKind::SubscriptionMatched,
+                                        );
+                                    }
                                 } else {
+                                    let writer_handle = InstanceHandle::new(
+                                        discovered_writer_data.dds_publication_data.key().value,
+                                    );
+                                    // A matched writer whose QoS became incompatible is not matched anymore
+                                    if data_reader
+                                        .matched_publication_list
+                                        .iter()
+                                        .any(|x| &x.key().value == writer_handle.as_ref())
+                                    {
+                                        data_reader.remove_matched_publication(&writer_handle);
+                                        data_reader.transport_reader.delete_matched_writer(
+                                            discovered_writer_data.writer_proxy.remote_writer_guid,
+                                        );
+                                    }
+                                    // The incompatibility of a writer is only reported once
+                                    let is_newly_incompatible =
+                                        !data_reader.incompatible_writer_list.contains(&writer_handle);
                                     data_reader.add_requested_incompatible_qos(
                                         InstanceHandle::new(
                                             discovered_writer_data.dds_publication_data.key().value,
@@ -1663,7 +1772,9 @@ impl DcpsDomainParticipant {
                                         incompatible_qos_policy_list,
                                     );
 
-                                    if data_reader
+                                    if !is_newly_incompatible {
+                                        // Already reported
+                                    } else if data_reader
                                         .listener_mask
                                         .is_enabled(&StatusKind::RequestedIncompatibleQos)
                                     {
@@ -1704,9 +1815,11 @@ impl DcpsDomainParticipant {
                                         }
                                     }
 
-                                    data_reader.status_condition.add_communication_state(
-                                        StatusKind::RequestedIncompatibleQos,
-                                    );
+                                    if is_newly_incompatible {
+                                        data_reader.status_condition.add_communication_state(
+                                            StatusKind::RequestedIncompatibleQos,
+                                        );
+                                    }
                                 }
                             } else {
                                 reader_associated_topic
@@ -3310,7 +3423,7 @@ fn get_discovered_writer_incompatible_qos_policy_list(
 
 /// Two partition policies match when one of their names matches, a name being either a literal or a
 /// POSIX fnmatch pattern. An empty list stands for the default partition, i.e. the single name "".
-fn is_partition_matched(
+pub(super) fn is_partition_matched(
     discovered: &crate::infrastructure::qos_policy::PartitionQosPolicy,
     local: &crate::infrastructure::qos_policy::PartitionQosPolicy,
 ) -> bool {
